@@ -30,6 +30,7 @@ BACKENDS = {
 }
 
 FILE_SHAPES = ["one-path", "one-str", "two-same-dir", "two-diff-dir", "missing-alone", "missing-second", "empty", "three-same-dir-order",
+               "symlink-into-subdir", "two-symlinks-different-subdirs", "symlink-and-plain",
                "nested-second", "nested-first", "nested-third", "parent-second"]
 BEHAVIOURS = [("ok", k, None) for k in (0, 1, 2)] + [("no-result", 1, None), ("fail-at-call", 0, None)] + \
              [("fail", k, i) for k in (0, 1, 2) for i in range(0, k + 1)] + \
@@ -69,11 +70,17 @@ def one_case(case):
         (d2 / "z.root").write_text("x")
         (d1 / "sub").mkdir()
         (d1 / "sub" / "s.root").write_text("x")
+        (d1 / "sub2").mkdir()
+        (d1 / "sub2" / "t.root").write_text("x")
+        os.symlink("sub/s.root", d1 / "latest.root")        # links that live in d1 and point into other directories
+        os.symlink("sub2/t.root", d1 / "other.root")
         files = {
             "one-path": d1 / "a.root", "one-str": str(d1 / "a.root"), "two-same-dir": [d1 / "b.root", d1 / "a.root"],
             "two-diff-dir": [d1 / "a.root", d2 / "z.root"], "missing-alone": d1 / "nope.root", "missing-second": [d1 / "a.root", d1 / "nope.root"],
             "nested-second": [d1 / "a.root", d1 / "sub" / "s.root"], "nested-first": [d1 / "sub" / "s.root", d1 / "a.root"],
             "nested-third": [d1 / "a.root", d1 / "b.root", d1 / "sub" / "s.root"], "parent-second": [d1 / "sub" / "s.root", d1 / "sub" / ".." / "a.root"],
+            "symlink-into-subdir": d1 / "latest.root", "two-symlinks-different-subdirs": [d1 / "latest.root", d1 / "other.root"],
+            "symlink-and-plain": [d1 / "a.root", d1 / "latest.root"],
             "empty": [], "three-same-dir-order": [str(d1 / "c.root"), str(d1 / "a.root"), str(d1 / "b.root")],
         }[shape]
         outdir = None
@@ -195,7 +202,8 @@ def judge(case, o):
         probs.append(f"command {c['command']}")
     vols = c["volumes"]
     pkg_dirs = {v[0] for v in vols if v[1].rstrip("/") in ("/scripts", "/results")}
-    want_names = {"one-path": ["a.root"], "one-str": ["a.root"], "two-same-dir": ["b.root", "a.root"], "three-same-dir-order": ["c.root", "a.root", "b.root"]}[shape]
+    want_names = {"one-path": ["a.root"], "one-str": ["a.root"], "two-same-dir": ["b.root", "a.root"], "three-same-dir-order": ["c.root", "a.root", "b.root"],
+                  "symlink-into-subdir": ["latest.root"], "two-symlinks-different-subdirs": ["latest.root", "other.root"], "symlink-and-plain": ["a.root", "latest.root"]}[shape]
 
     def has(mount, mode=None, src=None):
         for v in vols:
@@ -265,7 +273,8 @@ def main(tier="quick"):
                                     # the tempdir-state dimension only matters at construction; cross it with the rest on one behaviour
                                     if not tinit and beh != ("ok", 1, None):
                                         continue
-                                    if shape in ("missing-alone", "missing-second", "empty", "nested-second", "nested-first", "nested-third", "parent-second") and beh != ("ok", 1, None):
+                                    if shape in ("missing-alone", "missing-second", "empty", "nested-second", "nested-first", "nested-third", "parent-second",
+                                                 "symlink-into-subdir", "two-symlinks-different-subdirs", "symlink-and-plain") and beh != ("ok", 1, None):
                                         continue
                                 cases.append((backend, shape, image_mode, md_pos, outdir_mode, beh, tinit))
                                 # the same case after an earlier successful execution into the same output directory
